@@ -1,9 +1,11 @@
 #!/bin/bash
 # usage: run_seed.sh <patch> <prop> [<prop> ...] : applies a seeded patch to /repo, runs the checks, reverts.
 P=$1; shift
+rm -rf /tmp/evidence_save && cp -r /verif/evidence /tmp/evidence_save
 cd /repo && git apply "$P" || { echo "patch does not apply to /repo"; exit 2; }
 for prop in "$@"; do
   ( cd /verif && timeout 900 ./check $prop quick 2>&1 | grep -E "^VIOLATION|^property=|ENGINE|UNSUPPORTED|NOT-PROVED" | cut -c1-250 )
 done
 git -C /repo checkout -q -- . 
+rm -rf /verif/evidence && mv /tmp/evidence_save /verif/evidence
 git -C /repo status --short | grep -v "^??" | head -3
